@@ -194,6 +194,12 @@ JVParse(e) ==
                    (e.err.kind = "MaxIntError" /\ e.err.kval = c.comp /\ e.err.off = c.foff), "C17:kind-maxint")
        \cup Chk((c.fkind = "parseint" /\ c.plain /\ ~c.long) =>
                    (e.err.kind = "ParseIntError" /\ e.err.off = c.foff), "C17:kind-parseint")
+       \* after a decoration an implementation may refuse earlier with another kind; but if it does report the
+       \* component's kind, it reports the component's position and value
+       \cup Chk((c.fkind = "maxint" /\ ~c.plain /\ ~c.long /\ e.err.kind = "MaxIntError") =>
+                   (e.err.kval = c.comp /\ e.err.off = c.foff), "C17:kind-maxint-position")
+       \cup Chk((c.fkind = "parseint" /\ ~c.plain /\ ~c.long /\ e.err.kind = "ParseIntError") =>
+                   e.err.off = c.foff, "C17:kind-parseint-position")
        \cup Chk(e.err.kind = "NoValidRanges" => FALSE, "C17:kind-novalidranges-from-version-parse")
         ELSE {})
   \* ---- C06 (time budget: 50 ms + 100 us per byte)
